@@ -165,3 +165,14 @@ pub fn spawn_rc_system_command_from(world: &mut World, callback: SystemCommandCa
 }
 
 //-------------------------------------------------------------------------------------------------------------------
+
+#[cfg(feature = "verif")]
+impl SystemCommandStorage
+{
+    pub(crate) fn verif_has_callback(&self) -> bool
+    {
+        self.callback.is_some()
+    }
+}
+
+//-------------------------------------------------------------------------------------------------------------------
